@@ -238,7 +238,8 @@ class C04(Prop):
                   "from RFC 9114 §6.2/§7.2, GOAWAY identifier rules included) and there is none where the table has none; the "
                   "rules of server push, which the property's text does not name and h3 does not implement (a push stream, "
                   "CANCEL_PUSH, a MAX_PUSH_ID that goes down), are `may` in that table (reading R-04b) - "
-                  "C04_rfc_table_differs_only_on_push: the RFC-by-the-letter table verdictRfc differs from it only there, and "
+                  "C04_rfc_table_differs_only_on_push: the RFC-by-the-letter table verdictRfc differs from it only there and for the closing of a "
+                  "peer QPACK stream (R-04e, C04_qpack_closure_verdicts), and "
                   "the code's departures from the letter on those three are re-observed on the real code and printed as NOTE "
                   "lines by every run; a stream whose type the table calls unknown, or that ends before its type is known, "
                   "never raises an error and leaves the connection state untouched (C04_unknown_stream, against the table); for "
@@ -286,6 +287,14 @@ class C04(Prop):
                    "(SETTINGS at the end of the setup, the server's GOAWAY before accept answers None), allowed from the STOP_SENDING on; "
                    "whether accept's None waits for write credit for that GOAWAY is not constrained (both accepted until the credit is there); "
                    "stopped own QPACK streams: no opinion (no error, or H3_CLOSED_CRITICAL_STREAM)",
+                   "R-04d: a RESET of the control stream that arrives before the endpoint has looked at the frames in front of it may overtake "
+                   "them (RFC 9000 3.2: undelivered data may be discarded on RESET_STREAM): the frame's own error or H3_CLOSED_CRITICAL_STREAM, "
+                   "nothing else; which of the two the code answers depends on the chunking (NOTE line with counts and the witness pair); a frame "
+                   "the endpoint has looked at before the RESET came keeps exactly its own error (C04_reset_overtakes_only_unseen_frames)",
+                   "R-04e: the closing of the peer's QPACK encoder / decoder stream (RFC 9204 4.2: H3_CLOSED_CRITICAL_STREAM) is not named by the "
+                   "property's text: no error or that error are accepted (C04_qpack_closure_verdicts); the code raises none (NOTE line)",
+                   "frame type 0x41 on the control stream: `may` (R-03b); the oracle has no opinion on the alternative that went past the frame "
+                   "(what follows cannot be read as frames), errors demanded before it stay demanded",
                    "grease on: the control stream header is 28..35 bytes long (random setting id); lines whose control-stream credit stands "
                    "inside that window at an op boundary while SETTINGS are being written have no definite model answer and are not generated",
                    "the application keeps accept()/wait_idle() in flight (the driver is polled when something arrives)",
@@ -666,6 +675,9 @@ class C04(Prop):
         ("ctl server g0 o2 s2:000400 s2:0d0105 s2:0d0101 conn.A", "MAX_PUSH_ID going down (7.2.7: H3_ID_ERROR)"),
     ]
 
+    # reading R-04d: the same bytes, the control stream reset before the endpoint looks; whole / five chunks
+    RESET_PAIR = ("ctl server g0 o2 s2:0004000400 r2:7 conn.AL", "ctl server g0 o2 s2:00 s2:04 s2:00 s2:04 s2:00 r2:7 conn.AL")
+
     def extra(self, tier, rng, ctx):
         import vlib
         lines = [l for l, _ in self.RFC_WITNESSES]
@@ -680,6 +692,55 @@ class C04(Prop):
             if not vlib.spec_match(spec, impl):
                 res.append(("note", "outside C04's text (server push is not implemented, reading R-04b), RFC 9114 by the letter: %s: `%s` "
                                     "impl=`%s` RFC table=`%s`" % (what, l, impl.split(" | ")[0], spec), {}))
+        res += self.leniency_notes(ctx)
+        return res
+
+    def leniency_notes(self, ctx):
+        """Second audit: what the oracle's recorded leniencies (R-04d, R-04e, frame type 0x41) cover on THIS run:
+        engine `ctl note …` tells per line which of them it meets, the counts and witnesses are printed as NOTE lines."""
+        import vlib
+        idx = [i for i, l in enumerate(ctx["lines"]) if l.startswith("ctl ")]
+        ls = [ctx["lines"][i] for i in idx]
+        try:    # in parts, side by side like the model run (a million lines in the thorough tier)
+            tags, _ = vlib.run_model(["ctl note" + l[3:] for l in ls], vlib.workers_for(self))
+        except RuntimeError as e:
+            return [("broken", "C04: `ctl note` could not be run: %s" % e, {})]
+        closed = lambda i: ctx["impl"][i].split(" ")[0]
+        ov = [i for i, t in zip(idx, tags) if "overtaken=1" in t]
+        ov260 = [i for i in ov if closed(i) == "closed=[260]"]
+        qp = [i for i, t in zip(idx, tags) if "qpack=1" in t]
+        wt_seen = [i for i, t in zip(idx, tags) if "wtseen=1" in t]
+        wt_open = [i for i in wt_seen if ctx["spec"][i].strip() == "?"]
+        res = []
+        # R-04d: the witness pair on the real code
+        rc, out, _ = vlib.run_lines(vlib.RUN, list(self.RESET_PAIR))
+        rc2, out2, _ = vlib.run_lines(vlib.DRV, list(self.RESET_PAIR))
+        if rc != 0 or rc2 != 0 or len(out) != 2 or len(out2) != 2:
+            return [("broken", "C04: the witness pair of R-04d could not be run", {})]
+        pair = [project(l, r).split(" ")[0] for l, r in zip(self.RESET_PAIR, out)]
+        specs = [d.split(" ## ", 1)[1].strip() if " ## " in d else "?" for d in out2]
+        res.append(("note", "reading R-04d (a RESET of the control stream that arrives before the endpoint has looked at the frames in front of it "
+                            "may overtake them: the frame's own error OR H3_CLOSED_CRITICAL_STREAM, nothing else): %d lines of this run, the code answers "
+                            "260 in place of the frame's own code on %d of them; which of the two depends on the chunking "
+                            "(FrameStream::poll_next asks the transport before it decodes what it has buffered, h3/src/frame.rs): `%s` impl=`%s`, `%s` "
+                            "impl=`%s`, oracle on both=`%s`"
+                            % (len(ov), len(ov260), self.RESET_PAIR[0], pair[0], self.RESET_PAIR[1], pair[1], specs[0]), {}))
+        # R-04e: peer QPACK streams closed; judged by the RFC table
+        if qp:
+            qls = [ctx["lines"][i] for i in qp]
+            rc, rfc, _ = vlib.run_lines(vlib.DRV, ["ctlrfc" + l[3:] for l in qls])
+            if rc != 0 or len(rfc) != len(qls):
+                return [("broken", "C04: `ctlrfc` could not be run on the QPACK lines", {})]
+            dep = [i for i, d in zip(qp, rfc) if " ## " in d and not vlib.spec_match(d.split(" ## ", 1)[1].strip(), ctx["impl"][i])]
+            w = min((ctx["lines"][i] for i in dep), key=len) if dep else "-"
+            res.append(("note", "outside C04's text (it names the control stream only; reading R-04e), RFC 9204 4.2 by the letter: the peer's QPACK "
+                                "encoder / decoder stream closed or reset is H3_CLOSED_CRITICAL_STREAM: %d lines of this run close such a stream (the oracle "
+                                "accepts no error or 260), on %d of them the code departs from the RFC table (it never reads these streams: no error for the "
+                                "closing), shortest: `%s`" % (len(qp), len(dep), w), {}))
+        res.append(("note", "frame type 0x41 (WebTransport signal value) on the control stream: %d lines of this run have it among the control stream's "
+                            "events; the oracle has no opinion (`?`) on %d of them (the alternative that went past the frame: what follows cannot be read as "
+                            "frames), %d are judged (an error demanded before the frame stays demanded)"
+                            % (len(wt_seen), len(wt_open), len(wt_seen) - len(wt_open)), {}))
         return res
 
     def klass(self, line, impl):
